@@ -279,11 +279,73 @@ func runC10(c *Ctx, pr *PropertyRun) {
 	}
 
 	c10Multiget(c, pr)
+	c10ErrorResponse(c, pr)
+	decodePropTable(c, pr, "C10")
+	utcRule(c, pr, "C10")
 
 	sch := NewRule("C10", "C10.schema", "every wire struct of internal, webdav, caldav and carddav agrees with the RFC element tables (names, namespaces, attributes, required children; child order only noted: the RFCs declare it irrelevant) (E6)")
 	pr.Rules = append(pr.Rules, sch)
 	checkSchema(p, sch, func(xs *xmlStruct) bool { return !strings.HasPrefix(xs.Named.Obj().Name(), "zzVerifControl") }, nil, nil)
 	sch.RequireRole("wire-struct", "child-element")
+}
+
+// c10ErrorResponse: NewErrorResponse reports the backend's own status for a
+// bare *HTTPError, for one wrapped with %w (errors.As semantics), and 500 for
+// anything else.
+func c10ErrorResponse(c *Ctx, pr *PropertyRun) {
+	p := c.P
+	r := NewRule("C10", "C10.error-response", "NewErrorResponse carries the backend's own status: the code of an *HTTPError, bare or wrapped, else 500 (E2)")
+	r.Exhaustive = true
+	pr.Rules = append(pr.Rules, r)
+	fn := p.MustFunc(r, pkgInternal, "NewErrorResponse")
+	if fn == nil {
+		return
+	}
+	shapes := []string{"bare", "wrapped", "wrapped-twice", "other"}
+	spec := DTXSpec{Name: "internal.NewErrorResponse", Entry: fn,
+		Args: func(in *Interp) []Val {
+			var err Val
+			switch shapes[in.chooseLabeled("error-shape", shapes)] {
+			case "bare":
+				err = markerErr(in)
+			case "wrapped":
+				err = in.mkErr(&ErrObj{Kind: "wrap", Msg: kStr("backend: wrapped"), Wrapped: markerErr(in), Key: "wrapped"})
+			case "wrapped-twice":
+				inner := in.mkErr(&ErrObj{Kind: "wrap", Msg: kStr("backend: wrapped"), Wrapped: markerErr(in), Key: "wrapped"})
+				err = in.mkErr(&ErrObj{Kind: "wrap", Msg: kStr("outer"), Wrapped: inner, Key: "wrapped2"})
+			default:
+				err = in.mkErr(&ErrObj{Kind: "new", Msg: kStr("some failure"), Key: "plain"})
+			}
+			return []Val{SymStr{Key: "path"}, err}
+		},
+		Observe: func(in *Interp, res Val, pan *panicOutcome) string {
+			if pan != nil {
+				return "panic"
+			}
+			st := fieldVal(res, "Status")
+			if isNilVal(st) {
+				return "no status"
+			}
+			code, _ := in.concretise(fieldVal(st, "Code"))
+			href := "?"
+			if hs := elemsOf(in, fieldVal(res, "Hrefs")); len(hs) == 1 {
+				href = keyOf(fieldVal(hs[0], "Path"))
+			}
+			return fmt.Sprintf("status %d for %s", code, href)
+		},
+		Oracle: func(env *OracleEnv) ([]string, bool) {
+			if shapes[env.Choice("error-shape", len(shapes))] == "other" {
+				return []string{"status 500 for path"}, true
+			}
+			return []string{fmt.Sprintf("status %d for path", markerStatus)}, true
+		}}
+	res := runDTX(c, spec)
+	reportDTX(c, r, spec, res, "NewErrorResponse")
+	r.Role("decision-table")
+	if res.Runs < 4 {
+		r.Unresolved("the NewErrorResponse table has fewer than 4 rows")
+	}
+	r.RequireRole("decision-table")
 }
 
 func c10Multiget(c *Ctx, pr *PropertyRun) {
@@ -604,16 +666,21 @@ func runC05(c *Ctx, pr *PropertyRun) {
 			},
 			Args: func(in *Interp) []Val {
 				var args []Val
+				nstr := 0
 				for i, prm := range fn.Params {
 					switch {
 					case i == 0:
 						args = append(args, in.symOf(prm.Type(), "c"))
-					case prm.Name() == "options":
+					case isOptionsPtr(prm.Type()):
 						args = append(args, in.symOf(prm.Type(), "options"))
 					case types.Identical(prm.Type().Underlying(), types.Typ[types.Bool]):
-						args = append(args, LazyBool{prm.Name()})
+						args = append(args, LazyBool{"recursive"})
 					case types.Identical(prm.Type().Underlying(), types.Typ[types.String]):
-						args = append(args, SymStr{Key: prm.Name()})
+						// by position (the public API is positional): the
+						// first string is the resource, the second the
+						// destination
+						nstr++
+						args = append(args, SymStr{Key: []string{"", "name", "dest", "str3"}[nstr]})
 					default:
 						args = append(args, Opaque{prm.Name(), prm.Type()})
 					}
@@ -668,6 +735,16 @@ func runC05(c *Ctx, pr *PropertyRun) {
 		opt.Role("decision-table")
 	}
 	opt.RequireRole("decision-table")
+
+	// modification times are written as UTC (shared with C16.utc): a literal
+	// "GMT"/"Z" layout applied to an instant in another zone shifts it
+	utcRule(c, pr, "C05")
+
+	// the server half of the same chain: header -> backend arguments ->
+	// FileSystem options (the tables of C01, repeated here so that the end to
+	// end claim 'exactly the requested options' is decided by this check)
+	c01Dispatch(c, pr, "C05")
+	c01Adapter(c, pr, "C05")
 }
 
 // c05Kind: on the client FileInfo.IsDir is decided by the resourcetype the
@@ -773,6 +850,15 @@ func c05Kind(c *Ctx, r *RuleResult, fiT *types.Named) {
 			}
 		})
 	}
+}
+
+func isOptionsPtr(t types.Type) bool {
+	pt, ok := t.Underlying().(*types.Pointer)
+	if !ok {
+		return false
+	}
+	n := namedOf(pt.Elem())
+	return n != nil && strings.HasSuffix(n.Obj().Name(), "Options")
 }
 
 func sortedJoin(xs []string) string {
